@@ -315,7 +315,7 @@ def naming_programs():
     k = 0
     for (R, C) in [(1, 1), (2, 1), (2, 3), (3, 2), (8, 12), (5, 7)]:
         n = R * C
-        for pattern in ("default", "partial", "explicit", "shared", "partial-none"):
+        for pattern in ("default", "partial", "explicit", "shared", "partial-none", "like-default"):
             init = [((i * 7) % 5) for i in range(n)]
             if pattern == "default":
                 names = None
@@ -323,6 +323,13 @@ def naming_programs():
                 names = [(f"n{i}" if (v > 0 and i % 2 == 0) else None) for i, v in enumerate(init)]
             elif pattern == "explicit":
                 names = [(f"n{i}" if v > 0 else None) for i, v in enumerate(init)]
+            elif pattern == "like-default":
+                # the first filled well is given the name that the LAST filled well gets by default
+                filled = [i for i, v in enumerate(init) if v > 0]
+                names = [None] * n
+                if len(filled) >= 2 and (R > 1 or n == 1):
+                    j = filled[-1]
+                    names[filled[0]] = "stocks." + "ABCDEFGHIJKLMNOPQRSTUVWXYZ"[j % R] + f"{j // R + 1:02d}"
             else:
                 names = [("same" if v > 0 else None) for v in init]
             h = _hdr(f"naming/plate{R}x{C}-{pattern}", "evo", [gen.mk_plate("stocks", R, C, 0, 10, init, names)])
